@@ -266,13 +266,14 @@ func zero(t types.Type) value {
 
 // slice returns x[lo:hi:max].  Any of lo, hi and max may be nil.
 func slice(x, lo, hi, max value) value {
-	lo, hi, max = concretize(lo), concretize(hi), concretize(max)
 	var Len, Cap int
 	switch x := x.(type) {
 	case *symstr:
 		Len = len(x.b)
+		Cap = Len
 	case string:
 		Len = len(x)
+		Cap = Len
 	case []value:
 		Len = len(x)
 		Cap = cap(x)
@@ -281,6 +282,7 @@ func slice(x, lo, hi, max value) value {
 		Len = len(a)
 		Cap = cap(a)
 	}
+	lo, hi, max = concretizeIn(lo, 0, int64(Cap), "slice bounds"), concretizeIn(hi, 0, int64(Cap), "slice bounds"), concretizeIn(max, 0, int64(Cap), "slice bounds")
 
 	l := int64(0)
 	if lo != nil {
@@ -1126,7 +1128,7 @@ func callBuiltin(caller *frame, fn *ssa.Builtin, args []value) value {
 		return &caller.defers
 	}
 
-	panic("unknown built-in: " + fn.Name())
+	panic(unsupported("unknown built-in: " + fn.Name()))
 }
 
 func rangeIter(x value) iter {
